@@ -1,4 +1,5 @@
-(* C05 - faithful executable model of candidate cluster formation:
+(* C05 - faithful executable model of candidate cluster formation (the code after the repairs of the findings
+   candidate_index_window, neighbouring_singles_not_linked and supply_order_same_key_groups):
    antismash/common/secmet/features/candidate_cluster/formation.py (create_candidates_from_protoclusters,
    build_candidates, _ordered, _merge_sets, _find_hybrids, _find_interleaved(_candidates,
    _cross_origin_), _find_neighbouring(_candidates, _protoclusters)), structures.py
@@ -347,7 +348,10 @@ Fixpoint core_pairs (l : list proto) : list (proto * proto) :=
   | c :: r => map (fun o => (c, o)) (core_pairs_from c r) ++ core_pairs r
   end.
 
-(* `for candidate in candidates[index:]: if candidate.location.start > cluster.location.end: break` *)
+(* BEFORE the repair of finding candidate_index_window the loop "unassigned overlapping with candidates" was
+   `for candidate in candidates[index:]: if candidate.location.start > cluster.location.end: break` with
+   index = max(0, bisect_left(candidates, cluster) - 1); kept for the historical variant find_interleaved_v false
+   (class predicate of the finding); the code now looks at every candidate *)
 Fixpoint cand_scan (rel : cand * loc -> bool) (limit : Z) (cc : list (cand * loc)) : list (cand * loc) :=
   match cc with
   | [] => []
@@ -366,10 +370,10 @@ Definition find_interleaved (clusters : list proto) (cands : list cand) (w : opt
   let pp := core_pairs by_core in
   let groups1 := groups0 ++ map (fun xy => [fst xy; snd xy]) pp in
   let found1 := concat (map (fun xy => [fst xy; snd xy]) pp) in
+  (* `for cluster in unassigned_by_core: for candidate in candidates: if locations_overlap(cores)` *)
   let hits := flat_map (fun cl =>
                   map (fun ck => (ck, cl))
-                      (cand_scan (fun ck => overlap (snd ck) (pcore cl)) (lend (ploc cl))
-                                 (skipn (window_index cc cl) cc))) by_core in
+                      (filter (fun ck : cand * loc => overlap (snd ck) (pcore cl)) cc)) by_core in
   let groups2 := groups1 ++ map (fun h => cmem (fst (fst h)) ++ [snd h]) hits in
   let found2 := found1 ++ map snd hits in
   do fg <- find_cross_origin_interleaved w cc by_core groups2;
@@ -394,6 +398,8 @@ Definition find_neighbouring_protoclusters (pcs : list proto) : list (list proto
                end in
   map (fun xy => [fst xy; snd xy]) (pairs_rel rel pcs ++ extra).
 
+(* the windowed loop of _find_neighbouring BEFORE the repair of candidate_index_window
+   (`for candidate in candidates[index:] + candidates[:1]` with the early break); only for find_neighbouring_v false _ *)
 Fixpoint cand_scan_plain (rel : cand -> bool) (limit : Z) (cs : list cand) : list cand :=
   match cs with
   | [] => []
@@ -405,10 +411,10 @@ Definition window_index_plain (cs : list cand) (p : proto) : nat :=
 
 Definition find_neighbouring (singles : list proto) (cands : list cand) : list (list proto) :=
   let groups0 := find_neighbouring_candidates cands in
+  (* `for single in singles: for candidate in candidates: if single.overlaps_with(candidate)` *)
   let hits := flat_map (fun s =>
                  map (fun c => (c, s))
-                     (cand_scan_plain (fun c => overlap (ploc s) (cloc c)) (lend (ploc s))
-                                      (skipn (window_index_plain cands s) cands ++ firstn 1 cands))) singles in
+                     (filter (fun c => overlap (ploc s) (cloc c)) cands)) singles in
   let groups1 := groups0 ++ map (fun h => union (cmem (fst h)) [snd h]) hits in
   let unassigned := diff singles (map snd hits) in
   let edges :=
@@ -427,7 +433,9 @@ Definition find_neighbouring (singles : list proto) (cands : list cand) : list (
                         | [] => []
                         end) edges in
   let groups2 := groups1 ++ edge_groups in
-  merge_sets (groups2 ++ find_neighbouring_protoclusters (sort_by lt_pp (iter unassigned))).
+  (* `_find_neighbouring_protoclusters(singles)`: all singles, also those that overlap a candidate (repair of
+     finding neighbouring_singles_not_linked; before it: `sorted(unassigned)`) *)
+  merge_sets (groups2 ++ find_neighbouring_protoclusters singles).
 
 (* ---------- create_candidates_from_protoclusters ---------- *)
 Fixpoint singles_go (w : option Z) (existing : table) (l : list proto) : res (list cand) :=
@@ -446,7 +454,9 @@ Fixpoint singles_go (w : option Z) (existing : table) (l : list proto) : res (li
 
 (* everything up to (not including) the final sanity assertion and the final sort *)
 Definition formation_body (protos : list proto) (w : option Z) : res (list cand) :=
-  let unassigned0 := sort_by lt_pp protos in
+  (* `unassigned = _ordered(protoclusters)` (repair of finding supply_order_same_key_groups; before it
+     `sorted(protoclusters)`, which keeps protoclusters with identical coordinates in supply order) *)
+  let unassigned0 := ordered_list protos in
   do hu <- find_hybrids unassigned0 w;
   let '(hybrid_groups, unassigned1) := hu in
   do b1 <- build_candidates w K_HYBRID hybrid_groups [] [];
@@ -482,7 +492,7 @@ Definition class_joint_core_wraps (protos : list proto) (w : option Z) : bool :=
   match protos with
   | [] => false
   | _ =>
-    match find_hybrids (sort_by lt_pp protos) w with
+    match find_hybrids (ordered_list protos) w with
     | Ok (hybrid_groups, unassigned1) =>
       match build_candidates w K_HYBRID hybrid_groups [] [] with
       | Ok (cands1, _, _) =>
@@ -567,13 +577,16 @@ Definition spec_ok (protos : list proto) (w : option Z) (out : list ocand) : boo
 Definition eSpec (protos : list proto) (w : option Z) (out : list ocand) : list Z :=
   eBool (spec_ok protos w out) ++ flat_map eBool (spec_clauses protos w out).
 
-(* ---------- the formation with the two proposed repairs switched on or off ---------- *)
-(* `nw` = true: the bisect window and the early break of the "unassigned / singles overlapping with candidates"
-   loops are replaced by a scan of all candidates (repair proposed for finding candidate_index_window);
-   `allp` = true: _find_neighbouring compares ALL singles with each other, not only those that overlap no
-   candidate (repair proposed for finding neighbouring_singles_not_linked).  With both flags false these are the
-   functions above (find_interleaved, find_neighbouring, formation_body, create_candidates), definition by
-   definition; the variants serve as class predicates of the two findings and carry the completeness theorems. *)
+(* ---------- the formation with two repairs switched on or off (history; class predicates) ---------- *)
+(* `nw` = true: the "unassigned / singles overlapping with candidates" loops look at all candidates (the code since
+   the repair of finding candidate_index_window); false: the bisect window with the early break that the code had
+   before.  `allp` = true: _find_neighbouring compares ALL singles with each other (the code since the repair of
+   finding neighbouring_singles_not_linked); false: only those that overlap no candidate.  With both flags TRUE these
+   are the functions above (find_interleaved, find_neighbouring, formation_body, create_candidates), definition by
+   definition (C05_variants_are_the_model).  The variants with a flag off are NOT the code any more; they tell, for an
+   input on which the implementation fails a clause about the meaning of the kinds, which of the two repaired defects
+   would explain it (class_info, fn 21 / 22: label of a violation if a defect returns), and the soundness theorems are
+   stated for every setting of the flags.  Both use `_ordered(protoclusters)` (repair of supply_order_same_key_groups). *)
 Definition find_interleaved_v (nw : bool) (clusters : list proto) (cands : list cand) (w : option Z)
   : res (list (list proto) * list proto) :=
   do cc <- with_cores w cands;
@@ -622,7 +635,7 @@ Definition find_neighbouring_v (nw allp : bool) (singles : list proto) (cands : 
                            (if allp then singles else sort_by lt_pp (iter unassigned))).
 
 Definition formation_body_v (nw allp : bool) (protos : list proto) (w : option Z) : res (list cand) :=
-  let unassigned0 := sort_by lt_pp protos in
+  let unassigned0 := ordered_list protos in
   do hu <- find_hybrids unassigned0 w;
   let '(hybrid_groups, unassigned1) := hu in
   do b1 <- build_candidates w K_HYBRID hybrid_groups [] [];
@@ -727,8 +740,9 @@ Definition spec_clauses_all (protos : list proto) (w : option Z) (out : list oca
 Definition eSpecAll (protos : list proto) (w : option Z) (out : list ocand) : list Z :=
   eBool (forallb (fun b => b) (spec_clauses_all protos w out)) ++ flat_map eBool (spec_clauses_all protos w out).
 
-(* class information for the two findings: does the window / early break change the result, does the
-   restriction to hit-less singles change it, and does the formation with both repairs meet every clause *)
+(* class information for the two repaired findings: would the window / early break change the model's result (the
+   model against the variant with the window), would the restriction to hit-less singles change it, and does the
+   model (= both repairs) meet every clause; then the 12 flags of the model's output and the output *)
 Definition to_ocand (c : cand) : ocand := (ckind c, map pid (cmem c), cloc c).
 Definition res_cands_eqb (a b : res (list cand)) : bool :=
   match a, b with
@@ -741,8 +755,8 @@ Definition eCand0 (c : cand) : list Z :=
   ckind c :: eList (fun p => [pid p]) (cmem c) ++ eList (fun q : part => [ps q; pe q; pst q]) (cloc c).
 Definition class_info (protos : list proto) (w : option Z) : list Z :=
   let base := create_candidates protos w in
-  eBool (negb (res_cands_eqb base (create_candidates_v true false protos w)))
-  ++ eBool (negb (res_cands_eqb base (create_candidates_v false true protos w)))
+  eBool (negb (res_cands_eqb base (create_candidates_v false true protos w)))
+  ++ eBool (negb (res_cands_eqb base (create_candidates_v true false protos w)))
   ++ match create_candidates_v true true protos w with
      | Ok out => eBool (forallb (fun b => b) (spec_clauses_all protos w (map to_ocand out)))
                  ++ flat_map eBool (spec_clauses_all protos w (map to_ocand out)) ++ eList eCand0 out
@@ -830,7 +844,7 @@ Definition run_C05 (fn : Z) (l : list Z) : list Z :=
     | Some ((w, protos), []) => eBool (class_joint_core_wraps protos w)
     | _ => bad_input
     end
-  | 21 => (* class information of the findings candidate_index_window / neighbouring_singles_not_linked, input of fn 1 *)
+  | 21 => (* class information of the repaired findings candidate_index_window / neighbouring_singles_not_linked, input of fn 1 *)
     match dPair (dPair (dPair dZ dBool) (dList dGene)) (dList dProto) l with
     | Some ((n, circ, genes, protos), []) =>
       class_info (fold_left record_insert_proto (map (with_defs genes) protos) []) (if circ then Some n else None)
